@@ -162,7 +162,12 @@ func (s *Store) tick(ctx context.Context, kind, sel string, series int) error {
 			s.Cancel()
 		}
 	case "block":
+		// a storage that blocks until the query is cancelled; the cancellation comes
+		// from outside while the callback is blocked
 		if ctx != nil {
+			if s.Cancel != nil {
+				go s.Cancel()
+			}
 			<-ctx.Done()
 			return ctx.Err()
 		}
